@@ -1,4 +1,4 @@
 SPECIFICATION Spec
-CONSTANTS NC = 3  NT = 3  MaxVeto = 1  LogBeforeWrite = TRUE  HonourVeto = TRUE  CloseConnOnVeto = TRUE  DrainOnEOF = TRUE  LateVetoCloses = TRUE  GenHist = TRUE
+CONSTANTS NC = 3  NT = 3  MaxVeto = 1  LogBeforeWrite = TRUE  HonourVeto = TRUE  CloseConnOnVeto = TRUE  DrainOnEOF = TRUE  LateVetoCloses = TRUE  HookMax = 0  PutbackFirst = TRUE  GenHist = TRUE
 INVARIANT PrintScn
 CHECK_DEADLOCK FALSE
